@@ -7,6 +7,7 @@ package c01
 import (
 	"context"
 	"fmt"
+	"sort"
 	"strings"
 	"testing"
 	"testing/synctest"
@@ -426,7 +427,7 @@ func depthValues(L int) []int64 {
 
 func TestCheck(t *testing.T) {
 	r := vp.New("C01", "model_checking",
-		"configurations: chain length L x entry point (queried head h, explicit head h, announce of h, for every h) x latest-sync state (none, every index, via SetLatestSync or WithLastKnownSync) x stop (none, every index, foreign CID) x resync x depth limits (subscriber, first-sync, per-call; each in {unset, -1, 1, L-1, L, L+1}, at most two set at once) x segment size (disabled, 1..L+1, subscriber-wide or per-call) x every subset of pre-stored blocks, factored as A(what) x B(depth) with two 'how' settings, A x C(how) with two depth settings; plus a boundary sweep on chains of 5-6 (quick) / 5-8 (thorough) ads: every segment size 1..L+1 x every depth limit 1..L+1 of each kind x stop {none, oldest, second-oldest} x entry point x {the harness's own hook, the library's MakeGeneralBlockHook} choosing the next segment; entries chains: M x start x {SyncEntries, SyncOneEntry, SyncHAMTEntries} x depth limits x segment size x pre-stored subsets. Every configuration runs the real subscriber and publisher and is compared with an integer reference model. states = distinct base configurations; transitions = hook calls + requests observed; traces = executions.",
+		"configurations: chain length L x entry point (queried head h, explicit head h, announce of h, for every h) x latest-sync state (none, every index, via SetLatestSync or WithLastKnownSync) x stop (none, every index, foreign CID) x resync x depth limits (subscriber, first-sync, per-call; each in {unset, -1, 1, L-1, L, L+1}, at most two set at once) x segment size (disabled, 1..L+1, subscriber-wide or per-call) x every subset of pre-stored blocks, factored as A(what) x B(depth) with two 'how' settings, A x C(how) with two depth settings; plus a boundary sweep on chains of 5-6 (quick) / 5-8 (thorough) ads: every segment size 1..L+1 x every depth limit 1..L+1 of each kind x stop {none, oldest, second-oldest} x entry point x {the harness's own hook, the library's MakeGeneralBlockHook} choosing the next segment; entries chains: M x start x {SyncEntries, SyncOneEntry, SyncHAMTEntries} x depth limits x segment size x pre-stored subsets; the all-links entry point also on a DAG with fan-out (2 spine blocks with 2 leaves each) x 5 segment sizes x all 64 pre-stored subsets. Every configuration runs the real subscriber and publisher and is compared with an integer reference model. states = distinct base configurations; transitions = hook calls + requests observed; traces = executions.",
 		"reference model is the oracle (trusted; written from the statement)",
 		"two combinations whose depth limit the documentation leaves open (resync without stop on a known publisher with FirstSyncDepth set; explicit stop on a never-synced publisher with FirstSyncDepth set) are accepted under either reading",
 		"the block hook decodes each block and names its chain link as the next segment's CID, as the segmented-sync API requires",
@@ -545,6 +546,7 @@ func TestCheck(t *testing.T) {
 	boundarySweep(t, r, thorough)
 	historySweep(t, r, thorough)
 	checkEntries(t, r, maxL)
+	checkAllLinksTree(t, r, 2)
 	t.Logf("violations: %d", r.Violations())
 }
 
@@ -686,6 +688,84 @@ func checkEntries(t *testing.T, r *vp.Recorder, maxM int) {
 		}
 		if r.OverBudget() {
 			return
+		}
+	}
+}
+
+// checkAllLinksTree: the all-links entry point (SyncHAMTEntries) on a DAG with
+// fan-out (a spine of n blocks, each with two leaves): every block of the DAG
+// is reported exactly once and stored, whatever the subscriber's segment size
+// is and whichever blocks were stored before, and stored blocks are not
+// requested.
+func checkAllLinksTree(t *testing.T, r *vp.Recorder, n int) {
+	total := 3 * n
+	for _, seg := range []int64{-1, 1, 2, 3, int64(total) + 1} {
+		for pre := uint(0); pre < 1<<total; pre++ {
+			key := fmt.Sprintf("ent|all-links-tree|n%d|seg%d|pre%b", n, seg, pre)
+			if !r.Mine(key) {
+				continue
+			}
+			r.Eval(key, true)
+			var hooks, reqBlk []int
+			var serr error
+			var panicked string
+			missing := 0
+			syncfx.Bubble(t, func(t *testing.T) {
+				w := syncfx.NewWorld()
+				defer w.Close()
+				p := w.AddPub(fixture.Key("ed25519", 0), true)
+				ch := syncfx.BuildMapTree(p.Src, n, syncfx.DefaultProto, "c01t")
+				sub := w.NewSubscriber(dagsync.SegmentDepthLimit(seg))
+				for i := 0; i < total; i++ {
+					if pre&(1<<i) != 0 {
+						b, _ := p.Src.Get(ch.Cids[i])
+						w.Dst.Put(ch.Cids[i], b)
+					}
+				}
+				if pn, pm := vp.Guard(func() {
+					serr = sub.SyncHAMTEntries(context.Background(), p.AddrInfo(), ch.Head())
+					synctest.Wait()
+				}); pn {
+					panicked = pm
+					return
+				}
+				for _, h := range w.HookLog() {
+					hooks = append(hooks, ch.Index(h.Cid))
+				}
+				for _, rq := range p.Requests() {
+					if rq.Kind == "block" {
+						reqBlk = append(reqBlk, ch.Index(rq.Cid))
+					}
+				}
+				for _, c := range ch.Cids {
+					if !w.Dst.Has(c) {
+						missing++
+					}
+				}
+			})
+			sort.Ints(hooks)
+			var all []int
+			for i := 0; i < total; i++ {
+				all = append(all, i)
+			}
+			switch {
+			case panicked != "":
+				r.Violation("ent:panic:all-links-tree", key, firstLine(panicked), nil)
+			case serr != nil:
+				r.Violation("ent:sync-error:all-links-tree", key, serr.Error(), nil)
+			case ints(hooks) != ints(all):
+				r.Violation("ent:hooks:all-links-tree:segment-size-or-prestored-blocks-change-what-is-reported", key, fmt.Sprintf("segment size %d, pre-stored %b: blocks reported (sorted) [%s], want every block of the DAG once [%s]", seg, pre, ints(hooks), ints(all)), nil)
+			case missing != 0:
+				r.Violation("ent:store:all-links-tree", key, fmt.Sprintf("%d blocks of the DAG are not in the store after a successful sync", missing), nil)
+			default:
+				for _, b := range reqBlk {
+					if pre&(1<<b) != 0 {
+						r.Violation("ent:requested-prestored-block:all-links-tree", key, fmt.Sprintf("block %d was stored before and was requested", b), nil)
+						break
+					}
+				}
+				r.Outcome("tree-ok")
+			}
 		}
 	}
 }
